@@ -224,13 +224,29 @@ theorem C01_heap_source_program (ast : Block) (r : RBlock) (bc : Bytecode) (hc :
     (hin : SimH.inFragmentH r = true) (F : Nat) :
     match Spec.evalB F r {} with
     | .val () st' => ∃ mv n s', (∀ k, runSteps bc.code (n + k) (VM.start {} bc) = .value mv s') ∧
-        s'.mem.heap.tree treeDepth [] mv = st'.tree treeDepth [] st'.last ∧ s'.out = st'.out
+        s'.mem.heap.tree treeDepth [] mv = st'.tree treeDepth [] st'.last ∧ s'.out = st'.out ∧
+        (finishValue mv s').mem.heap.tree treeDepth [] mv = s'.mem.heap.tree treeDepth [] mv
     | .err er ste => ∃ n s', (∀ k, runSteps bc.code (n + k) (VM.start {} bc) = .error er s') ∧ s'.out = ste.out
     | .brk _ => False
     | .cont _ => False
     | .ret _ _ => False
     | _ => True :=
   SimH.heap_source_program ast r bc hc hin F
+
+/-- THE OBSERVATION ITSELF (what the correspondence check compares, `evalText` against `specText`), for
+    every text whose resolved tree passes the stage-5 validation: whatever the definitional semantics
+    answers with some fuel — a value (as its deep view) after its printed output, or an error after
+    its printed output — `eval` on the machine answers the same for every large enough instruction
+    budget.  This includes what happens when `run` returns: the hand-over of the result (`GC::untrace`)
+    and the release of everything else by the run's collector (`Drop`), `GC.finish_tree`. -/
+theorem C01_heap_eval_text (cc : CharClass) (src : Text) (ast : Block) (r : RBlock) (bc : Bytecode) (hp : parse cc src = .ok ast)
+    (hc : compileProgram ast = .ok (r, bc)) (hin : SimH.inFragmentH r = true) (F : Nat) :
+    match specText cc F src with
+    | .value t out => ∃ n, ∀ k, evalText cc (n + k) src = .value t out
+    | .error e out => ∃ n, ∀ k, evalText cc (n + k) src = .error e out
+    | .fault _ => False
+    | _ => True :=
+  SimH.heap_eval_text cc src ast r bc hp hc hin F
 
 /-- `stel a = [1.5, "x"]; stel b = a; b[0] = a; print(a, lengte(a)); zolang lengte(a) < 1 { stop }; a[1][0] + "y"` -/
 def heapAst : Block :=
